@@ -24,6 +24,7 @@ type genProfile struct {
 	checkVHash *bool
 	cfgHook    func(t *rapid.T, c *Cfg) // last word on the configuration (C15: served subsets, keys per bucket)
 	kinds      []string                 // overrides the op mix
+	postCfg    func(t *rapid.T, c *Cfg) // small adjustments after the generic configuration was drawn
 	compress   bool                     // values and sizes focused on the server-side compression decision (C10)
 	maxKeys    int
 }
@@ -193,6 +194,9 @@ func genCfg(t *rapid.T, p *genProfile) Cfg {
 			c.Groups = append(c.Groups, grp)
 			next += sz
 		}
+	}
+	if p.postCfg != nil {
+		p.postCfg(t, &c)
 	}
 	if p.cfgHook != nil {
 		p.cfgHook(t, &c)
